@@ -175,6 +175,8 @@ def run_obligations(pid, obs, tier, log):
                 v.status = "pass"
         except SYM.Unsupported as e:
             v.undecided("unsupported construct on a relevant path: %s" % str(e)[:300])
+        except SYM.SolverUnknown as e:
+            v.undecided("the solver gave no verdict on a deciding query: %s" % str(e)[:200])
         except Exception as e:
             v.undecided("engine error: %s" % (traceback.format_exc()[-600:]))
         dt = time.time() - t
